@@ -1,6 +1,7 @@
 package cqueue
 
 import (
+	"github.com/aperturerobotics/util/verifhook"
 	"sync/atomic"
 )
 
@@ -25,6 +26,7 @@ func (q *AtomicLIFO[T]) Push(value T) {
 
 		// Set the next of the new atomicLIFONode to the current top.
 		newNode.next = oldTop
+		verifhook.Atomic("lifo.push", q)
 
 		// Try to set the new atomicLIFONode as the new top.
 		if q.top.CompareAndSwap(oldTop, newNode) {
@@ -46,6 +48,7 @@ func (q *AtomicLIFO[T]) Pop() T {
 
 		// Read the next atomicLIFONode after the top.
 		next := oldTop.next
+		verifhook.Atomic("lifo.pop", q)
 
 		// Try to set the next atomicLIFONode as the new top.
 		if q.top.CompareAndSwap(oldTop, next) {
